@@ -35,6 +35,8 @@ PURE_INIT_CALLEES = ('hash_from_bytes_sha3_512', 'to_string', 'to_owned', 'compr
                      # iterator plumbing (the closures they run are crate bodies and are scanned as well)
                      'for_each', 'try_for_each', 'map', 'collect', 'fold', 'rev', 'skip', 'take', 'chain', 'cloned', 'copied', 'by_ref', 'enumerate')
 
+PURE_KRATES = ('core', 'alloc', 'std', 'sha3', 'digest', 'curve25519_dalek', 'itertools', 'zeroize', 'blake2', 'byteorder')
+
 
 def run(ctx):
     rep = ctx.rep
@@ -63,7 +65,12 @@ def run(ctx):
                 nm = callee_decl(t).split('::')[-1]
                 # crate-local accessors of another once-cell are pure as well (their own initialiser is judged separately)
                 accessor = callee_name(t) in facts.fn and any(x['path'].rsplit('::', 1)[0] == callee_name(t) for x in statics)
-                rep.check(nm in PURE_INIT_CALLEES or accessor, 'R-C18-1', key + '/init/' + callee_decl(t), 'initialiser calls pure %s' % callee_decl(t),
+                # anything in core / alloc / std outside the denied namespaces (environment, time, threads, I/O, randomness, interior
+                # mutability) and the deterministic dependencies is a pure function of its arguments
+                kr = t['func'].get('res_krate') or t['func'].get('krate') or ''
+                full = callee_name(t)
+                lib_pure = kr in PURE_KRATES and not any(full.startswith(d) or callee_decl(t).startswith(d) for d in DENIED_PREFIXES)
+                rep.check(nm in PURE_INIT_CALLEES or accessor or lib_pure, 'R-C18-1', key + '/init/' + callee_decl(t), 'initialiser calls pure %s' % callee_decl(t),
                           'initialiser of %s calls %s, which is not on the pure allow-list' % (s['path'], callee_name(t)), ctx.where(cb, bb))
 
     # R-C18-2 unsafe / interior mutability / thread locals
